@@ -775,7 +775,10 @@ Definition c02_swept (t : trans) : bool :=
   forallb (fun id => forallb (fun r => forallb (fun d =>
       if sweeps t r id d then excess (t_post t) r id d =? 0 else true)
     denoms) roles) (ids_upto (st_aseq (t_post t) + 2)).
-Definition c02_all (t : trans) : bool := c02_ok t && c02_swept t.
+(* C02, "every bidder has received the coins allocated to them plus the unused part of their reservation": at the
+   settlement of a batch auction each bidder's refund is the reservation minus what the allocation costs at the
+   clearing price (the whole reservation when nothing is allocated) - the batch clause of C04 *)
+Definition c02_all (t : trans) : bool := c02_ok t && c02_swept t && c04_batch t.
 
 (* C05, "the maximum bid amount the allow-list granted": after an accepted allow-list operation the stored maximum
    of every account it names is the one granted last (a later entry for the same account overrides an earlier one) *)
